@@ -30,6 +30,7 @@ from symx.engine import harness
 from symx import shims
 
 import armi.reactor.components.component as cmod
+import armi.reactor.grids.cartesian as cartmod
 import armi.reactor.grids.hexagonal as hexmod
 import armi.reactor.grids.structuredGrid as sgmod
 import armi.reactor.parameters.parameterCollections as pcmod
@@ -42,9 +43,10 @@ from harness import _build
 shims.patch(cmod, float=shims.float_shim, np=shims.np_shim)
 shims.patch(sgmod, np=shims.np_shim)
 shims.patch(hexmod, np=shims.np_shim, sqrt=shims.math_shim.sqrt)
+shims.patch(cartmod, np=shims.np_shim)
 
 STUBS = ["component.float -> identity on proxies (setTemperature); component.np -> numpy shim (np.isnan(proxy) = False)",
-         "structuredGrid.np / hexagonal.np -> object-array aware numpy shim; hexagonal.sqrt -> algebraic sqrt "
+         "structuredGrid.np / hexagonal.np / cartesian.np -> object-array aware numpy shim; hexagonal.sqrt -> algebraic sqrt "
          "(only where a grid pitch is symbolic)"]
 
 # Candidate genuine defects found while writing these harnesses.  The obligations stay in the file; while a flag is
@@ -70,6 +72,14 @@ KNOWN_DEFECT_link_replaced_in_scope = False  # recorded in known_findings.jsonl
 KNOWN_DEFECT_kept_array_shape_change = False  # repaired in /repo (fix: commit 9f716d0)
 KNOWN_DEFECT_readonly_inplace_ndens = False  # repaired in /repo (fix: commit acabdbc)
 KNOWN_DEFECT_deleted_entry_reads_marker = False  # recorded in known_findings.jsonl
+#  nested_grid_backup     : g = HexGrid.fromPitch(1.0); b.spatialGrid = g
+#                           with b.retainState(): g.changePitch(2.0)
+#                                                 with b.retainState(): g.changePitch(3.0)
+#                           -> pitch 2.0 after the inner scope (right) and STILL 2.0 after the outer scope (want 1.0):
+#                           StructuredGrid.backUp keeps ONE backup (self._backup = ...), the inner scope overwrites the
+#                           outer scope's backup (parameters and caches keep a stack; the grid does not).  Same for a
+#                           Cartesian grid (widths and offset) and for the axial mesh of an assembly.
+KNOWN_DEFECT_nested_grid_backup = True   # candidate genuine defect, reported; obligation skipped on the failing histories
 
 
 # ---------------------------------------------------------------------------
@@ -135,6 +145,7 @@ class Slot:
     passive = False  # never assigned directly (side effect of another slot)
     mixed = False    # observes state both of the block and of the assembly
     carrier = True   # may carry the canary (first scalar is a symbolic input)
+    grid = False     # observes the geometric state of a grid (backed up by StructuredGrid.backUp)
 
     def init(self, ctx, v):
         pass
@@ -380,6 +391,7 @@ class FuelOd(Slot):
 
 class BlockGrid(Slot):
     """pitch of a hex grid owned by the block (not a parameter: always restored)"""
+    grid = True
     name = "b.spatialGrid pitch"
     exact = False
     scale = 500.0
@@ -400,10 +412,49 @@ class BlockGrid(Slot):
         return (x, y)
 
 
+class CartGrid(Slot):
+    """Cartesian grid owned by a block: its whole geometric state (cell widths AND the offset of the origin, which
+    scales with the widths) changed through changePitch (not a parameter: always restored).  `offset`: 'centred'
+    (zero offset), 'half-cell' (the origin shifted by half a cell: ``isOffset`` layout for an even number of cells
+    across) or 'explicit' (any symbolic offset assigned through the ``offset`` property before the scope).
+    Observed: the coordinates of the cell at the origin (= the offset) and of another cell."""
+    exact = False
+    scale = 500.0
+    grid = True
+
+    def __init__(self, level, offset):
+        self.level, self.offset = level, offset
+        self.name = "%s.cartesian grid (%s offset)" % (level, offset)
+        self.tag = "cart_%s_" % level
+
+    def init(self, ctx, v):
+        o = getattr(v, self.level)
+        w0, h0 = ctx.real(self.tag + "w0", 0.1, 100.0), ctx.real(self.tag + "h0", 0.1, 100.0)
+        g = grids.CartesianGrid.fromRectangle(w0, h0, numRings=2, isOffset=(self.offset == "half-cell"))
+        if self.offset == "explicit":
+            g.offset = shims.np_shim.array([ctx.real(self.tag + "ox", -50.0, 50.0), ctx.real(self.tag + "oy", -50.0, 50.0),
+                                            0.0])
+        g.armiObject = o
+        o.spatialGrid = g
+
+    def draw(self, ctx, tag):
+        return (ctx.real(self.tag + "w" + tag, 0.1, 100.0), ctx.real(self.tag + "h" + tag, 0.1, 100.0))
+
+    def apply(self, v, x):
+        getattr(v, self.level).spatialGrid.changePitch(x[0], x[1])
+
+    def read(self, v):
+        g = getattr(v, self.level).spatialGrid
+        x0, y0, _z = g.getCoordinates((0, 0, 0))
+        x1, y1, _z = g.getCoordinates((1, -2, 0))
+        return (x0, y0, x1, y1)
+
+
 class Axial(Slot):
     """block height + calculateZCoords: block elevations (parameters) and the bounds of the assembly's axial grid"""
     name, level = "a axial mesh", "a"
     mixed = True
+    grid = True
     exact = False
     scale = 1000.0
 
@@ -531,7 +582,8 @@ class DeletedEntry(Scalar):
 
 SLOTS = {s.name: s for s in (ChargeTime(), Power(), MgFlux(), BuByPin(), LinPow(), MgToNone(), HmBOL(), CladNdens(),
                              DuctTemp(), DuctNdens(), DuctTempChoice(), DuctNdensKeepable(), FuelOd(), BlockGrid(),
-                             Axial(), Cache(), Cache("b", False), Cache("a", False), Cache("clad", False),
+                             Axial(), CartGrid("b", "half-cell"), CartGrid("b1", "explicit"), CartGrid("b", "centred"),
+                             CartGrid("b1", "half-cell"), Cache(), Cache("b", False), Cache("a", False), Cache("clad", False),
                              Scalar("b", "flux", 0.0, 1e16), Scalar("clad", "percentBu", 0.0, 100.0),
                              Scalar("fuel", "percentBu", 0.0, 100.0), Scalar("a", "dischargeTime", -10.0, 1e4),
                              Unset("fuel", "buRate"),
@@ -595,6 +647,8 @@ SINGLE = [
     # no value / empty cache when the scope is opened
     ("fuel.buRate (unset at entry)", "b.cached (empty at entry)", "b.power"),
     ("b.flux (entry deleted)", "clad.zrFrac (unset at entry)", "clad.cached (empty at entry)"),
+    # grids other than the centred hex lattice: Cartesian, origin offset from the lattice (the offset scales with the pitch)
+    ("b.cartesian grid (half-cell offset)", "b1.cartesian grid (explicit offset)", "b.power"),
 ]
 
 
@@ -602,7 +656,13 @@ SINGLE_THOROUGH = [
     ("a.chargeTime", "b.power", "b.mgFlux", "clad.numberDensities"),
     ("b.linPowByPin", "b1.mgFlux", "fuel.massHmBOL", "fuel.od"),
     ("b.percentBuByPin", "b.cached", "b.spatialGrid pitch", "a axial mesh", "b.power"),
-    ("fuel.od", "clad.numberDensities", "duct.temperatureInC", "b.power"),
+    # a symbolic duct temperature together with a keepable numberDensities slot makes the `new == old` test inside
+    # restoreBackup a degree-6 rational inequality per nuclide of the duct (the keep-set names the DEFINITION, so it
+    # applies to the duct as well): > 50 min.  Split: concrete temperatures with the keepable dict / symbolic
+    # temperature without it
+    ("fuel.od", "clad.numberDensities", "duct.temperatureInC (2 values)", "b.power"),
+    ("fuel.od", "duct.temperatureInC", "b.power", "a.chargeTime"),
+    ("b.cartesian grid (centred offset)", "b1.cartesian grid (half-cell offset)", "b.cached", "a.chargeTime"),
     ("fuel.buRate (unset at entry)", "clad.zrFrac (unset at entry)", "a.cached (empty at entry)", "b.cached (empty at entry)"),
 ]
 
@@ -737,19 +797,26 @@ NESTED_KINDS = [   # (kind under test, companion parameter on the SAME object)
     ("fuel.massHmBOL", "fuel.percentBu"),                # None -> scalar
     ("fuel.buRate (unset at entry)", "fuel.percentBu"),  # no value -> scalar
     ("b.cached (empty at entry)", "b.flux"),             # cache, empty when the outer scope is opened
+    ("b.spatialGrid pitch", "b.flux"),                   # grid pitch (not a parameter: never kept)
+]
+NESTED_KINDS_THOROUGH = [
+    ("b.cartesian grid (half-cell offset)", "b.flux"),   # Cartesian grid: widths and offset
+    ("b1.cartesian grid (explicit offset)", "b.flux"),   # ... on the block the inner scope may not cover
+    ("a axial mesh", "a.dischargeTime"),                 # bounds of the assembly's axial grid + block elevations
 ]
 
 
 @harness("C16", bounds="two nested scopes (outer on the assembly, inner on the assembly or the block: symbolic); per "
                        "instance ONE quantity of a given kind (scalar / array / list / None -> array / dict entry / "
-                       "None -> scalar / no value -> scalar / empty cache) and a companion scalar parameter on the same "
+                       "None -> scalar / no value -> scalar / empty cache / grid pitch; thorough: Cartesian grid widths "
+                       "and offset) and a companion scalar parameter on the same "
                        "object; symbolic booleans, independently: the quantity is assigned before / inside / after "
                        "the inner scope, named in the inner / in the outer keep-set; the companion (never kept) is "
                        "assigned before / inside (thorough: / after) the inner scope; all values fresh symbolic reals. "
                        "Includes: assigned ONLY inside the inner scope with nothing else touched on the object",
          stubs=STUBS,
          instances={"quick": [dict(kind=k, companion=c) for k, c in NESTED_KINDS],
-                    "thorough": [dict(kind=k, companion=c, post=True) for k, c in NESTED_KINDS] +
+                    "thorough": [dict(kind=k, companion=c, post=True) for k, c in NESTED_KINDS + NESTED_KINDS_THOROUGH] +
                                 [dict(kind="clad.zrFrac (unset at entry)", companion="clad.percentBu", post=True),
                                  dict(kind="a.cached (empty at entry)", companion="a.dischargeTime", post=True),
                                  dict(kind="a.chargeTime", companion="a.dischargeTime", post=True)]},
@@ -770,6 +837,12 @@ def retain_state_nested_keep_kinds(ctx, kind, companion, post=False):
     kout = ctx.bool("outer keeps " + K.name) if keepable else False
     innerOnBlock = ctx.bool("inner scope on block")
     new = {(w, s.name): s.draw(ctx, t) for w, t in zip(when, ("1", "2", "3")) for s in slots}
+    if K.mixed:
+        ctx.assume(NOT(innerOnBlock))   # touches the block and the assembly: only meaningful for scopes on the assembly
+    if KNOWN_DEFECT_nested_grid_backup and _HIDE and K.grid:
+        # the grid keeps a single backup: a grid changed between the two scope entries is not restored by the outer exit
+        ctx.assume(NOT(asg[("before", K.name)]))
+        ctx.note("KNOWN_DEFECT_nested_grid_backup: histories that change the grid before the inner scope are skipped")
     kin, kout = bool(kin), bool(kout)
     outerSet = [K.pd(v)] if kout else []
     innerSet = [K.pd(v)] if kin else []
@@ -1138,6 +1211,93 @@ def read_only_reactor_refuses_every_assignment(ctx):
     except RuntimeError:
         back = True
     ctx.check("a read-only collection cannot be made writable", back and obj.p.readOnly)
+
+
+def _walk(o):
+    """every object of a tree, by plain iteration over children (not through iterChildren, which the code under test uses)"""
+    yield o
+    for c in o:
+        yield from _walk(c)
+
+
+def _mk_reactor_with_excore():
+    """mini reactor whose content is NOT all in the core: core (2 assemblies) + spent fuel pool holding a discharged
+    assembly + another ex-core structure holding a block"""
+    from armi.reactor.excoreStructure import ExcoreStructure
+    from armi.reactor.spentFuelPool import SpentFuelPool
+
+    r, core, (a0, a1) = _build.mk_core([(0, 0), (1, 0)], nblocks=1)
+    sfp = SpentFuelPool("sfp")
+    sfp.spatialGrid = grids.CartesianGrid.fromRectangle(50.0, 50.0, numRings=2)
+    sfp.spatialGrid.armiObject = sfp
+    r.add(sfp)
+    stored = _build.mk_assembly(1)
+    sfp.add(stored, sfp.spatialGrid[0, 0, 0])
+    ex = ExcoreStructure("storage rack")
+    ex.spatialGrid = grids.CartesianGrid.fromRectangle(10.0, 10.0, numRings=2)
+    ex.spatialGrid.armiObject = ex
+    r.add(ex)
+    blk = _build.mk_block()
+    ex.add(blk, ex.spatialGrid[1, 0, 0])
+    return r, core, sfp, stored, ex, blk
+
+
+_RO_PREFERRED = ("cycle", "keff", "chargeTime", "power", "temperatureInC")
+
+
+def _some_parameter(o):
+    """a parameter of `o` to try to assign: a well-known scalar if the class has one, else ANY defined parameter (the
+    pool and the bare ex-core structure only define ``serialNum`` and ``flags``)"""
+    names = o.p.paramDefs.names
+    for n in _RO_PREFERRED:
+        if n in names:
+            return n
+    return "serialNum"
+
+
+@harness("C16", bounds="mini reactor with content INSIDE and OUTSIDE the core: core (2 assemblies x 1 block x 4 "
+                       "components), spent fuel pool holding a discharged assembly, a second ex-core structure holding "
+                       "a block (27 objects); after makeParametersReadOnly(reactor) an assignment of a symbolic real is "
+                       "attempted on ONE object, a symbolic choice over ALL objects of the tree (enumerated by plain "
+                       "iteration over children), through p.name = x or p[name] = x (symbolic choice)", stubs=STUBS)
+def read_only_reactor_covers_every_object(ctx):
+    r, core, sfp, stored, ex, blk = _mk_reactor_with_excore()
+    objs = list(_walk(r))
+    must = [r, core, sfp, stored, stored[0], stored[0][0], ex, blk, blk[1]] + list(core)
+    assert all(any(o is m for o in objs) for m in must), "harness precondition: the walk reaches every system"
+    x = ctx.real("x", 1.0, 650.0)
+    k = ctx.int("object", 0, len(objs) - 1)
+    viaItem = ctx.bool("p[name] = x (else p.name = x)")
+    ctx.check("writable before", not any(o.p.readOnly for o in objs))
+    makeParametersReadOnly(r)
+    for n, o in enumerate(objs):
+        ctx.check("object %d of the tree is read-only: %s > %s" % (n, _where(o, core), type(o).__name__), o.p.readOnly)
+    o = objs[int(k)]
+    name = _some_parameter(o)
+    before = o.p[name]
+    refused = False
+    try:
+        if viaItem:
+            o.p[name] = x + 1
+        else:
+            setattr(o.p, name, x + 1)
+    except RuntimeError:
+        refused = True
+    if ctx.canary:
+        refused = AND(refused, NOT(AND(k == len(objs) - 3, x == 333)))
+    what = "%s > %s .p.%s" % (_where(o, core), type(o).__name__, name)
+    ctx.check("assignment is refused: " + what, refused)
+    ctx.check("... and the value did not change: " + what, _plain_eq(o.p[name], before))
+
+
+def _where(o, core):
+    while o is not None:
+        if o is core:
+            return "core"
+        if o.parent is not None and o.parent.parent is None:
+            return type(o).__name__
+        o = o.parent
+    return "reactor"
 
 
 def _plain_eq(p, q):
